@@ -239,6 +239,7 @@ class Read:
         for mode, seed in self.modes:
             LIST.mode, LIST.seed = mode, seed
             ctx.cell(self.fmt, self.sel, mode)
+            ctx.count('judged:%s:%s' % (self.fmt, self.sel))
             try:
                 res = call()
             except Exception as e:
@@ -275,7 +276,18 @@ REP_POOLS = {1: [[1], [0], [10], [3]],
              3: [[1, 2, 10], [0, 1, 10], [2, 10, 11], [9, 10, 100], [1, 2, 3], [2, 3, 10], [2, 10, 100]]}
 
 
+FORCE = {'min_cfg': 0, 'nrep': None, 'all_bad': False}   # set by the 'options' kind: long chains, three replicas, every rejection row
+
+
+def pick_bad(rng, rows):
+    """The selections that must raise: one seeded row per case, every row in the 'options' kind."""
+    one = str(rng.choice(rows))
+    return list(rows) if FORCE['all_bad'] else [one]
+
+
 def gen_reps(rng, nrep=None):
+    if nrep is None and FORCE['nrep']:
+        nrep = FORCE['nrep']
     if nrep is None:
         nrep = int(rng.choice([1, 2, 3], p=[0.15, 0.3, 0.55]))
     pool = REP_POOLS[nrep]
@@ -285,6 +297,8 @@ def gen_reps(rng, nrep=None):
 def n_cfg(rng, tier, small=False):
     if small:
         return int(rng.integers(5, 8))
+    if FORCE['min_cfg']:
+        return FORCE['min_cfg'] + int(rng.integers(0, 8))
     if tier == 'quick':
         return int(rng.choice([5, 6, 7, 9, 12, 16, 24]))
     return int(rng.choice([5, 6, 8, 12, 20, 30, 40]))
@@ -581,7 +595,7 @@ def case_rwms(ctx, rng, version=None):
                                 alt=alt, alt_tag='rwms:names-resorted-not-data')
 
         go('all', {}, S.expect())
-        if rng.random() < 0.5:
+        if rng.random() < 0.5 or FORCE['all_bad']:
             go('print_err', {'print_err': True}, S.expect(), k=2)
         win = {r: pick_window(rng, cm[r]) for r in S.reps}
         if all(w is not None and w[0] != 0 for w in win.values()):
@@ -605,19 +619,19 @@ def case_rwms(ctx, rng, version=None):
         nn = ['lbl|r%d' % r for r in S.reps]
         go('names', {'names': nn}, S.expect(names=nn))
         r0 = S.reps[0]
-        bad = str(rng.choice(['r_start-not-in-file', 'r_stop-not-in-file', 'r_start-length', 'version-unknown', 'file-missing', 'version-mismatch']))
-        if bad == 'r_start-not-in-file':
-            go(bad, {'r_start': [cm[r][-1] + 7 for r in S.reps]}, None, k=2)
-        elif bad == 'r_stop-not-in-file':
-            go(bad, {'r_stop': [cm[r][-1] + 3 for r in S.reps]}, None, k=2)
-        elif bad == 'r_start-length':
-            go(bad, {'r_start': [cm[r0][0]] * (nrep + 1)}, None, k=2)
-        elif bad == 'version-unknown':
-            go(bad, {'version': '1.2'}, None, k=2)
-        elif bad == 'file-missing':
-            go(bad, {'files': [S.fname(r0), 'nonexistent.dat']}, None, k=2)
-        elif bad == 'version-mismatch' and S.version != '2.0':
-            go(bad, {'version': '2.0'}, None, k=2)
+        for bad in pick_bad(rng, ['r_start-not-in-file', 'r_stop-not-in-file', 'r_start-length', 'version-unknown', 'file-missing', 'version-mismatch']):
+            if bad == 'r_start-not-in-file':
+                go(bad, {'r_start': [cm[r][-1] + 7 for r in S.reps]}, None, k=2)
+            elif bad == 'r_stop-not-in-file':
+                go(bad, {'r_stop': [cm[r][-1] + 3 for r in S.reps]}, None, k=2)
+            elif bad == 'r_start-length':
+                go(bad, {'r_start': [cm[r0][0]] * (nrep + 1)}, None, k=2)
+            elif bad == 'version-unknown':
+                go(bad, {'version': '1.2'}, None, k=2)
+            elif bad == 'file-missing':
+                go(bad, {'files': [S.fname(r0), 'nonexistent.dat']}, None, k=2)
+            elif bad == 'version-mismatch' and S.version != '2.0':
+                go(bad, {'version': '2.0'}, None, k=2)
         if nrep >= 2:
             perm = permuted(rng, S.reps)
             srt = natural(perm)
@@ -843,7 +857,7 @@ def compare_derived(ctx, tag, obs, ref, exp_cfgs, what, rtol=1e-6, sqrt=False):
 
 
 def case_msdat_energy(ctx, rng):
-    dtr = rng.random() < 0.25
+    dtr = rng.random() < (0.5 if FORCE['all_bad'] else 0.25)
     S = MsdatSet(rng, ctx.tier, dtr=dtr)
     fmt = 'ms.dat-energy'
     oq = PE.input.openQCD
@@ -886,13 +900,13 @@ def case_msdat_energy(ctx, rng):
         go('files', {'files': [S.fname(r) for r in sub]}, {'reps': sub})
         nn = ['lbl|r%d' % r for r in S.reps]
         go('names', {'names': nn}, {'names': nn})
-        bad = str(rng.choice(['r_start-not-in-file', 'r_stop-length', 'file-missing']))
-        if bad == 'r_start-not-in-file':
-            go(bad, {'r_start': [cfg_map(S.traj[r], 'energy')[-1] + 4 for r in S.reps]}, {}, k=2, must_raise=True)
-        elif bad == 'r_stop-length':
-            go(bad, {'r_stop': [5] * (nrep + 1)}, {}, k=2, must_raise=True)
-        else:
-            go(bad, {'files': ['nonexistent.ms.dat']}, {}, k=2, must_raise=True)
+        for bad in pick_bad(rng, ['r_start-not-in-file', 'r_stop-length', 'file-missing']):
+            if bad == 'r_start-not-in-file':
+                go(bad, {'r_start': [cfg_map(S.traj[r], 'energy')[-1] + 4 for r in S.reps]}, {}, k=2, must_raise=True)
+            elif bad == 'r_stop-length':
+                go(bad, {'r_stop': [5] * (nrep + 1)}, {}, k=2, must_raise=True)
+            else:
+                go(bad, {'files': ['nonexistent.ms.dat']}, {}, k=2, must_raise=True)
         if nrep >= 2:
             # documented: "names ... assigned to the data according to the order in the file list"
             perm = permuted(rng, S.reps)
@@ -1020,17 +1034,17 @@ def case_msdat_qtop(ctx, rng):
         stp = S.traj[S.reps[0]][1] - S.traj[S.reps[0]][0]
         if all(S.traj[r][1] - S.traj[r][0] == stp for r in S.reps):
             go('steps', c, {'steps': stp}, {}, k=2)
-        bad = str(rng.choice(['L-missing', 'zeuthen-openQCD', 'version-unknown', 'r_start-not-in-file', 'steps-mismatch']))
-        if bad == 'L-missing':
-            run_sel(ctx, rng, fmt, bad, lambda: oq.read_qtop(d, S.prefix, c), None, jf, {'c': c}, k=2)
-        elif bad == 'zeuthen-openQCD':
-            go(bad, c, {'Zeuthen_flow': True}, {}, k=2, must_raise=True)
-        elif bad == 'version-unknown':
-            go(bad, c, {'version': 'openQCD-2'}, {}, k=2, must_raise=True)
-        elif bad == 'r_start-not-in-file':
-            go(bad, c, {'r_start': [cm[r][-1] + 2 for r in S.reps]}, {}, k=2, must_raise=True)
-        else:
-            go(bad, c, {'steps': stp + 1}, {}, k=2, must_raise=True)
+        for bad in pick_bad(rng, ['L-missing', 'zeuthen-openQCD', 'version-unknown', 'r_start-not-in-file', 'steps-mismatch']):
+            if bad == 'L-missing':
+                run_sel(ctx, rng, fmt, bad, lambda: oq.read_qtop(d, S.prefix, c), None, jf, {'c': c}, k=2)
+            elif bad == 'zeuthen-openQCD':
+                go(bad, c, {'Zeuthen_flow': True}, {}, k=2, must_raise=True)
+            elif bad == 'version-unknown':
+                go(bad, c, {'version': 'openQCD-2'}, {}, k=2, must_raise=True)
+            elif bad == 'r_start-not-in-file':
+                go(bad, c, {'r_start': [cm[r][-1] + 2 for r in S.reps]}, {}, k=2, must_raise=True)
+            else:
+                go(bad, c, {'steps': stp + 1}, {}, k=2, must_raise=True)
         if nrep >= 2:
             perm = permuted(rng, S.reps)
             srt = natural(perm)
@@ -1193,15 +1207,15 @@ def case_ms5(ctx, rng):
         go('files', corr, {'files': [S.fname(r) for r in sub]}, {'reps': sub})
         nn = ['lbl|r%d' % r for r in S.reps]
         go('names', corr, {'names': nn}, {'names': nn})
-        bad = str(rng.choice(['qc-unknown', 'corr-unknown', 'idl-none-found', 'file-missing']))
-        if bad == 'qc-unknown':
-            go(bad, corr, {}, {}, k=2, must_raise=True, qc='rq')
-        elif bad == 'corr-unknown':
-            go(bad, 'gX', {}, {}, k=2, must_raise=True)
-        elif bad == 'idl-none-found':
-            go(bad, corr, {'idl': [[100000 + i for i in range(6)] for _ in S.reps]}, {}, k=2, must_raise=True)
-        else:
-            go(bad, corr, {'files': ['nonexistent.dat']}, {}, k=2, must_raise=True)
+        for bad in pick_bad(rng, ['qc-unknown', 'corr-unknown', 'idl-none-found', 'file-missing']):
+            if bad == 'qc-unknown':
+                go(bad, corr, {}, {}, k=2, must_raise=True, qc='rq')
+            elif bad == 'corr-unknown':
+                go(bad, 'gX', {}, {}, k=2, must_raise=True)
+            elif bad == 'idl-none-found':
+                go(bad, corr, {'idl': [[100000 + i for i in range(6)] for _ in S.reps]}, {}, k=2, must_raise=True)
+            else:
+                go(bad, corr, {'files': ['nonexistent.dat']}, {}, k=2, must_raise=True)
         if nrep >= 2:
             perm = permuted(rng, S.reps)
             # files in another order: names are stated in the file names
@@ -1520,17 +1534,17 @@ def case_sfcf(ctx, rng, layout):
                     return ok
                 returned += run_sel(ctx, rng, fmt, 'multi-ens_name' if mens else 'multi', call_multi, True, jm,
                                     dict(base_what, names=multi_names, wf=wl, wf2=w2l, keyed=keyed, im=mim, ens_name=mens), k=2)
-        bad = str(rng.choice(['names-length', 'names-not-unique', 'version-unknown', 'correlator-absent', 'files-type']))
-        if bad == 'names-length':
-            go(bad, key, {'names': nn + ['lbl|r99']}, {}, k=2, must_raise=True)
-        elif bad == 'names-not-unique' and nrep >= 2:
-            go(bad, key, {'names': [nn[0]] * nrep}, {}, k=2, must_raise=True)
-        elif bad == 'version-unknown':
-            run_sel(ctx, rng, fmt, bad, lambda: sf.read_sfcf(d, S.prefix, key[0], quarks=key[1], corr_type=SFCF_TYPES[key[0]], version='3.0'), None, None, {}, k=2)
-        elif bad == 'correlator-absent':
-            go(bad, (key[0], key[1], key[2], 7, key[4]), {}, {}, k=2, must_raise=True)
-        elif bad == 'files-type':
-            go(bad, key, {'files': [[range(1, 11, 2)] for _ in S.reps]}, {}, k=2, must_raise=True)
+        for bad in pick_bad(rng, ['names-length', 'names-not-unique', 'version-unknown', 'correlator-absent', 'files-type']):
+            if bad == 'names-length':
+                go(bad, key, {'names': nn + ['lbl|r99']}, {}, k=2, must_raise=True)
+            elif bad == 'names-not-unique' and nrep >= 2:
+                go(bad, key, {'names': [nn[0]] * nrep}, {}, k=2, must_raise=True)
+            elif bad == 'version-unknown':
+                run_sel(ctx, rng, fmt, bad, lambda: sf.read_sfcf(d, S.prefix, key[0], quarks=key[1], corr_type=SFCF_TYPES[key[0]], version='3.0'), None, None, {}, k=2)
+            elif bad == 'correlator-absent':
+                go(bad, (key[0], key[1], key[2], 7, key[4]), {}, {}, k=2, must_raise=True)
+            elif bad == 'files-type':
+                go(bad, key, {'files': [[range(1, 11, 2)] for _ in S.reps]}, {}, k=2, must_raise=True)
         if nrep >= 2:
             # permuted names: the documentation promises no pairing rule -> observed
             perm = permuted(rng, S.reps)
@@ -1668,10 +1682,10 @@ def case_hadrons(ctx, rng):
         go('meson_label', k, lambda: hd.read_meson_hd5(d, S.stem, S.ens, meson='meson_%d' % k, idl=the_idl(base_idl) if base_idl else None), idl=base_idl)
         g = (S.attrs[k]['gamma_snk'], S.attrs[k]['gamma_src'])
         go('gammas', k, lambda: hd.read_meson_hd5(d, S.stem, S.ens, gammas=g, idl=the_idl(base_idl) if base_idl else None), idl=base_idl)
-        part = str(rng.choice(['real', 'imag', 'complex']))
         k2 = int(rng.integers(0, S.K))
-        go('read_hd5:' + part, k2, lambda: hd.read_hd5(os.path.join(d, S.stem), S.ens, 'meson', attrs=dict(S.attrs[k2]) if rng.random() < 0.5 else k2,
-                                                       idl=the_idl(base_idl) if base_idl else None, part=part), part=part, idl=base_idl)
+        for part in pick_bad(rng, ['real', 'imag', 'complex']):
+            go('read_hd5:' + part, k2, lambda part=part: hd.read_hd5(os.path.join(d, S.stem), S.ens, 'meson', attrs=dict(S.attrs[k2]) if rng.random() < 0.5 else k2,
+                                                                     idl=the_idl(base_idl) if base_idl else None, part=part), part=part, idl=base_idl)
         # idl selections
         c = S.cfgs
         if even and len(c) >= 7:
@@ -1686,19 +1700,19 @@ def case_hadrons(ctx, rng):
         if len(c) >= 7:
             pick = sorted(int(x) for x in rng.choice(c, size=int(rng.integers(5, len(c))), replace=False))
             go('idl-list', k, lambda: hd.read_meson_hd5(d, S.stem, S.ens, meson='meson_%d' % k, idl=list(pick)), idl=pick)
-        bad = str(rng.choice(['idl-missing-configuration', 'uneven-without-idl', 'attrs-ambiguous', 'attrs-absent', 'gammas-length', 'stem-absent']))
-        if bad == 'idl-missing-configuration':
-            go(bad, k, lambda: hd.read_meson_hd5(d, S.stem, S.ens, idl=list(c) + [c[-1] + 1]), kk=2, must_raise=True)
-        elif bad == 'uneven-without-idl' and not even:
-            go(bad, k, lambda: hd.read_meson_hd5(d, S.stem, S.ens), kk=2, must_raise=True)
-        elif bad == 'attrs-ambiguous':
-            go(bad, k, lambda: hd.read_hd5(os.path.join(d, S.stem), S.ens, 'meson', attrs={'quark': 'l'}, idl=the_idl(base_idl) if base_idl else None), kk=2, must_raise=True)
-        elif bad == 'attrs-absent':
-            go(bad, k, lambda: hd.read_hd5(os.path.join(d, S.stem), S.ens, 'meson', attrs={'gamma_snk': 'SigmaXY'}, idl=the_idl(base_idl) if base_idl else None), kk=2, must_raise=True)
-        elif bad == 'gammas-length':
-            go(bad, k, lambda: hd.read_meson_hd5(d, S.stem, S.ens, gammas=('Gamma5',)), kk=2, must_raise=True)
-        elif bad == 'stem-absent':
-            go(bad, k, lambda: hd.read_meson_hd5(d, 'nothing_here', S.ens), kk=2, must_raise=True)
+        for bad in pick_bad(rng, ['idl-missing-configuration', 'uneven-without-idl', 'attrs-ambiguous', 'attrs-absent', 'gammas-length', 'stem-absent']):
+            if bad == 'idl-missing-configuration':
+                go(bad, k, lambda: hd.read_meson_hd5(d, S.stem, S.ens, idl=list(c) + [c[-1] + 1]), kk=2, must_raise=True)
+            elif bad == 'uneven-without-idl' and not even:
+                go(bad, k, lambda: hd.read_meson_hd5(d, S.stem, S.ens), kk=2, must_raise=True)
+            elif bad == 'attrs-ambiguous':
+                go(bad, k, lambda: hd.read_hd5(os.path.join(d, S.stem), S.ens, 'meson', attrs={'quark': 'l'}, idl=the_idl(base_idl) if base_idl else None), kk=2, must_raise=True)
+            elif bad == 'attrs-absent':
+                go(bad, k, lambda: hd.read_hd5(os.path.join(d, S.stem), S.ens, 'meson', attrs={'gamma_snk': 'SigmaXY'}, idl=the_idl(base_idl) if base_idl else None), kk=2, must_raise=True)
+            elif bad == 'gammas-length':
+                go(bad, k, lambda: hd.read_meson_hd5(d, S.stem, S.ens, gammas=('Gamma5',)), kk=2, must_raise=True)
+            elif bad == 'stem-absent':
+                go(bad, k, lambda: hd.read_meson_hd5(d, 'nothing_here', S.ens), kk=2, must_raise=True)
         if returned and digits_differ(S.cfgs):
             ctx.nontrivial.add(S.digest())
         ctx.sample({'format': fmt, 'stem': S.stem, 'T': S.T, 'entries': S.attrs, 'configurations': S.cfgs[:3] + ['...', S.cfgs[-1]], 'reads_returned': returned})
@@ -1796,7 +1810,7 @@ class GfmsSet:
 
 
 def case_gfms(ctx, rng):
-    coupling = rng.random() < 0.35
+    coupling = rng.random() < 0.35 or FORCE['all_bad']
     S = GfmsSet(rng, ctx.tier, coupling=coupling)
     fmt = 'gfms'
     oq = PE.input.openQCD
@@ -1858,15 +1872,15 @@ def case_gfms(ctx, rng):
             returned += run_sel(ctx, rng, fmt, 'gf_coupling', lambda: oq.read_gf_coupling(d, S.prefix, 0.3), exp,
                                 lambda cx, tag, res, e, w: compare_table(cx, tag, res, e, w, rtol=1e-12), dict(base_what), k=2)
             run_sel(ctx, rng, fmt, 'gf_coupling-c', lambda: oq.read_gf_coupling(d, S.prefix, 0.2), None, None, dict(base_what), k=2)
-        bad = str(rng.choice(['c-beyond-cmax', 'L-contradicts-header', 'r_stop-not-in-file', 'postfix-wrong']))
-        if bad == 'c-beyond-cmax':
-            go(bad, S.cmax * 1.3, {}, {}, k=2, must_raise=True)
-        elif bad == 'L-contradicts-header':
-            go(bad, c, {'L': S.L + 2}, {}, k=2, must_raise=True)
-        elif bad == 'r_stop-not-in-file':
-            go(bad, c, {'r_stop': [cm[r][-1] + 2 for r in S.reps]}, {}, k=2, must_raise=True)
-        else:
-            go(bad, c, {'postfix': 'gfmx'}, {}, k=2, must_raise=True)
+        for bad in pick_bad(rng, ['c-beyond-cmax', 'L-contradicts-header', 'r_stop-not-in-file', 'postfix-wrong']):
+            if bad == 'c-beyond-cmax':
+                go(bad, S.cmax * 1.3, {}, {}, k=2, must_raise=True)
+            elif bad == 'L-contradicts-header':
+                go(bad, c, {'L': S.L + 2}, {}, k=2, must_raise=True)
+            elif bad == 'r_stop-not-in-file':
+                go(bad, c, {'r_stop': [cm[r][-1] + 2 for r in S.reps]}, {}, k=2, must_raise=True)
+            else:
+                go(bad, c, {'postfix': 'gfmx'}, {}, k=2, must_raise=True)
         if nrep >= 2:
             perm = permuted(rng, S.reps)
             srt = natural(perm)
@@ -2162,7 +2176,7 @@ def soft(ctx, fmt, sel, io, call, exp, what, ekw=None):
     judged(ctx, '%s:%s' % (fmt, sel), io, res, exp, what, ekw=ekw)
 
 
-def hard(ctx, rng, fmt, sel, io, call, exp, what, ekw=None, k=1):
+def hard(ctx, rng, fmt, sel, io, call, exp, what, ekw=None, k=2):
     """A documented call: result required (exp) or exception required (exp None)."""
     jf = io.judge(ekw)
     return run_sel(ctx, rng, fmt, sel, call, exp, jf, what, k=k)
@@ -2361,12 +2375,158 @@ def case_scale(ctx, rng, fmt):
         ctx.sample({'format': fmt, 'class': 'scale', 'factor': sc})
 
 
+def case_options(ctx, rng, which):
+    """Checklist 13: every documented option of a reader together with the hostile layout (three replicas with different
+    digit counts, chains long enough for every window / stride, all rejection rows, all listings) in ONE case, instead
+    of waiting for the product of independent draws."""
+    FORCE.update(min_cfg=13, nrep=3, all_bad=True)
+    try:
+        ctx.count('options_cases')
+        if which.startswith('rwms'):
+            case_rwms(ctx, rng, version=which[5:])
+        elif which == 'msdat_energy':
+            case_msdat_energy(ctx, rng)
+        elif which == 'msdat_qtop':
+            case_msdat_qtop(ctx, rng)
+        elif which == 'gfms':
+            case_gfms(ctx, rng)
+        elif which == 'ms5':
+            case_ms5(ctx, rng)
+        elif which.startswith('sfcf'):
+            case_sfcf(ctx, rng, which[-1])
+        else:
+            FORCE.update(nrep=None)
+            case_hadrons(ctx, rng)
+    finally:
+        FORCE.update(min_cfg=0, nrep=None, all_bad=False)
+
+
+OPTION_KINDS = ['rwms-1.4', 'rwms-1.6', 'rwms-2.0', 'msdat_energy', 'msdat_qtop', 'gfms', 'ms5', 'sfcf_o', 'sfcf_c', 'sfcf_a', 'hadrons']
+
+
+def poison(S, fmt, io):
+    """Checklist 14 (spectators): overwrite everything the chosen read does not depend on with NaN / inf / huge numbers."""
+    bad = [float('nan'), float('inf'), -float('inf'), 1.7e308, -0.0]
+
+    def fill(a, j):
+        a[...] = bad[j % len(bad)]
+    if fmt.startswith('rwms'):
+        for r in S.reps:
+            for j, rec in enumerate(S.rec[r]):
+                for a in rec[1]:
+                    fill(a, j)                       # sqn: never used
+                if len(rec) > 3:
+                    for a in rec[3] + rec[4]:
+                        fill(a, j + 1)               # low words of the quadruple precision numbers
+    elif fmt == 'ms.dat-energy':
+        for r in S.reps:
+            for j, rec in enumerate(S.rec[r]):
+                fill(rec[1], j)
+                fill(rec[3], j + 1)                  # W and Q when Y is read
+    elif fmt == 'ms.dat-qtop':
+        k = S.flow_index(io.params['c'])
+        for r in S.reps:
+            for j, rec in enumerate(S.rec[r]):
+                fill(rec[1], j)
+                fill(rec[2], j + 1)
+                for n in range(S.nn + 1):
+                    if n != k:
+                        fill(rec[3][n], j + 2)       # the other flow times
+    elif fmt == 'gfms':
+        jx = S.c_index(io.params['c'])
+        for r in S.reps:
+            for j, rec in enumerate(S.rec[r]):
+                for a in range(S.ncs + 1):
+                    for i in range(16):
+                        if not (a == jx and i == 0):
+                            fill(rec[1][a, i], j + i)
+    elif fmt == 'ms5_xsf':
+        ci = F.MS5_BI.index(io.params['corr'])
+        for r in S.reps:
+            for j, rec in enumerate(S.rec[r]):
+                for i in range(10):
+                    if i != ci:
+                        fill(rec[1][i], j + i)
+                fill(rec[2], j)
+    elif fmt.startswith('sfcf'):
+        for (r, c), d_ in S.vals.items():
+            for j, (k_, a) in enumerate(d_.items()):
+                if k_ != io.key:
+                    fill(a, j + c)
+    else:
+        for j, c in enumerate(S.cfgs):
+            for k_ in range(S.K):
+                if k_ != io.params['k']:
+                    S.vals[c][k_][...] = complex(bad[j % 4], bad[(j + 1) % 4])
+
+
+def case_spectators(ctx, rng, fmt):
+    """Checklist 14: the numbers a read does not depend on (unused blocks, other correlators / flow times / entries, the low
+    words of quadruple numbers) are NaN, +-inf or 1.7e308; the result must be exactly the expectation all the same."""
+    S = make_set(fmt, rng, ctx.tier)
+    io = IO(fmt, S, rng)
+    poison(S, fmt, io)
+    with tempfile.TemporaryDirectory(prefix='vmon_C17_', dir=TMPROOT) as d:
+        S.write(d, distractors=False)
+        ctx.count('file_sets')
+        e = io.expect()
+        if e is None:
+            return
+        n = hard(ctx, rng, fmt, 'spectators-poisoned', io, lambda: io.read(d), e, {'format': fmt, 'class': 'spectators'}, k=2)
+        if fmt.startswith('sfcf') and fmt != 'sfcf-a':
+            # the other part (real / imaginary) of the wanted numbers is a spectator as well
+            for v in S.vals.values():
+                v[io.key][:, 1] = float('nan')
+            import shutil
+            for x in os.listdir(d):
+                shutil.rmtree(os.path.join(d, x))
+            S.write(d, distractors=False)
+            hard(ctx, rng, fmt, 'spectator-imaginary-part', io, lambda: io.read(d), io.expect(), {'format': fmt, 'class': 'spectators'}, k=1)
+        if n:
+            ctx.nontrivial.add(digest('spectators', S.digest()))
+        ctx.sample({'format': fmt, 'class': 'spectators poisoned with nan / inf / 1.7e308'})
+
+
+def case_many(ctx, rng, fmt):
+    """Checklist 12 (beyond the quantifier's 1-3 replicas / 5-40 configurations, judged like everything else): 12 replicas
+    r0..r11, one chain with more than 255 configurations, 12 time slices."""
+    which = str(rng.choice(['replicas', 'configurations']))
+    FORCE.update(min_cfg=260 if which == 'configurations' else 0)
+    try:
+        S = make_set(fmt, rng, ctx.tier)
+    finally:
+        FORCE.update(min_cfg=0)
+    if which == 'replicas' and fmt != 'hadrons':
+        # rebuild with twelve replicas: reuse the generator with a patched pool
+        old = REP_POOLS[3]
+        REP_POOLS[3] = [list(range(12))]
+        FORCE.update(nrep=3)
+        try:
+            S = make_set(fmt, rng, ctx.tier)
+        finally:
+            REP_POOLS[3] = old
+            FORCE.update(nrep=None)
+    io = IO(fmt, S, rng)
+    with tempfile.TemporaryDirectory(prefix='vmon_C17_', dir=TMPROOT) as d:
+        S.write(d, distractors=False)
+        ctx.count('file_sets')
+        e = io.expect()
+        if e is None:
+            return
+        n = hard(ctx, rng, fmt, 'many-' + which, io, lambda: io.read(d), e, {'format': fmt, 'class': 'many', 'which': which}, k=2)
+        if n:
+            ctx.nontrivial.add(digest('many', which, S.digest()))
+        ctx.sample({'format': fmt, 'class': 'many ' + which,
+                    'replicas': len(getattr(S, 'reps', [0])), 'longest_chain': max(len(x) for x in (getattr(S, 'traj', None) or getattr(S, 'cfgs') if isinstance(getattr(S, 'cfgs', None), dict) else {0: S.cfgs}).values())})
+
+
 def plan(tier):
-    m = 1 if tier == 'quick' else 14
+    m = 1 if tier == 'quick' else 10
     h = len(HARD_FMTS)
-    return [('rwms', 75 * m), ('msdat_energy', 40 * m), ('msdat_t0', 14 * m), ('msdat_qtop', 40 * m), ('gfms', 40 * m), ('ms5', 40 * m),
+    return [('rwms', 75 * m), ('msdat_energy', 40 * m), ('msdat_t0', 36 * m), ('msdat_qtop', 40 * m), ('gfms', 40 * m), ('ms5', 40 * m),
             ('sfcf_o', 32 * m), ('sfcf_c', 40 * m), ('sfcf_a', 40 * m), ('hadrons', 40 * m),
-            ('history', 5 * h * m), ('hard', 5 * h * m), ('scale', 5 * h * m)]
+            ('options', 18 * len(OPTION_KINDS) * m), ('history', 6 * h * m), ('hard', 26 * h * m), ('scale', 26 * h * m),
+            ('spectators', 26 * h * m), ('many', 2 * h * m)]
 
 
 def run_case(ctx, kind, idx, rng):
@@ -2392,3 +2552,9 @@ def run_case(ctx, kind, idx, rng):
         case_hard(ctx, rng, HARD_FMTS[idx % len(HARD_FMTS)])
     elif kind == 'scale':
         case_scale(ctx, rng, HARD_FMTS[idx % len(HARD_FMTS)])
+    elif kind == 'options':
+        case_options(ctx, rng, OPTION_KINDS[idx % len(OPTION_KINDS)])
+    elif kind == 'spectators':
+        case_spectators(ctx, rng, HARD_FMTS[idx % len(HARD_FMTS)])
+    elif kind == 'many':
+        case_many(ctx, rng, HARD_FMTS[idx % len(HARD_FMTS)])
